@@ -109,7 +109,15 @@ func (p *Prog) globalFuncs() map[*ssa.Global][]*ssa.Function {
 					continue
 				}
 				var f *ssa.Function
-				switch v := st.Val.(type) {
+				sv := st.Val
+				for {
+					ct, isCT := sv.(*ssa.ChangeType)
+					if !isCT {
+						break
+					}
+					sv = ct.X
+				}
+				switch v := sv.(type) {
 				case *ssa.Function:
 					f = v
 				case *ssa.MakeClosure:
@@ -152,6 +160,36 @@ func (p *Prog) globalFuncs() map[*ssa.Global][]*ssa.Function {
 				}
 				if g, isG := addr.(*ssa.Global); isG {
 					p.gfuncs[g] = append(p.gfuncs[g], f)
+				}
+				// a composite literal built in a temporary and then copied into the variable as a whole
+				if al, isA := addr.(*ssa.Alloc); isA && al.Referrers() != nil {
+					for _, ref := range *al.Referrers() {
+						ld, isL := ref.(*ssa.UnOp)
+						if !isL || ld.Referrers() == nil {
+							continue
+						}
+						for _, r2 := range *ld.Referrers() {
+							st2, isS := r2.(*ssa.Store)
+							if !isS || st2.Val != ld {
+								continue
+							}
+							a2 := st2.Addr
+							for {
+								switch a := a2.(type) {
+								case *ssa.FieldAddr:
+									a2 = a.X
+									continue
+								case *ssa.IndexAddr:
+									a2 = a.X
+									continue
+								}
+								break
+							}
+							if g, isG := a2.(*ssa.Global); isG {
+								p.gfuncs[g] = append(p.gfuncs[g], f)
+							}
+						}
+					}
 				}
 			}
 		}
